@@ -6,6 +6,7 @@ INVARIANT CompleteInv
 INVARIANT LaterScansFalse
 INVARIANT ErrPrecedence
 INVARIANT FalseReasonInv
+INVARIANT ReadAheadInv
 CONSTRAINT HighWater
 POSTCONDITION TraceAccepted
 CHECK_DEADLOCK FALSE
